@@ -10,9 +10,10 @@ def plan(tier):
     p = Plan()
     quick = tier == 'quick'
     lock_goals = ['NoLock', 'NoUnlock', 'NoRelock', 'NoLockedProposal', 'NoPrevoteOfLock']
-    p.exhaustive = [(tm.Cfg('n3p112-b1-r2', [1, 1, 2], [1], max_round=2, budget=1), lock_goals)]
+    p.exhaustive = [(tm.Cfg('n3p112-b1-r1', [1, 1, 2], [1], max_round=1, budget=1), ['NoLock', 'NoLockedProposal'])]
     if not quick:
-        p.exhaustive += [(tm.Cfg('n4-b0-r2', [1, 1, 1, 1], [4], max_round=2, budget=0), lock_goals),
+        p.exhaustive += [(tm.Cfg('n3p112-b1-r2', [1, 1, 2], [1], max_round=2, budget=1), lock_goals),
+                         (tm.Cfg('n4-b0-r2', [1, 1, 1, 1], [4], max_round=2, budget=0), lock_goals),
                          (tm.Cfg('n3p112-b2-r2', [1, 1, 2], [1], max_round=2, budget=2), ['NoUnlock'])]
     n = 30 if quick else 300
     p.sims = [(tm.Cfg('sim-lock-n4', [1, 1, 1, 1], [2], max_round=3, max_height=1, nbyz=1, budget=8, own_first=False,
